@@ -502,7 +502,51 @@ func (r *recDirect) WriteDirect(b []byte, remainCap int) error {
 	return nil
 }
 
+// runNocopyRaw: Binary.WriteStringNocopy / WriteBinaryNocopy called directly (schema RawStr / RawBin)
+func runNocopyRaw(c *StructCase, w *TraceWriter, seeds []int) {
+	val := c.S[0].Bytes()
+	vj := Raw(`{"s1":` + segsOfStr(val, seeds) + `}`)
+	nlarge := 0
+	if len(val) >= 4096 {
+		nlarge = 1
+	}
+	for _, has := range []bool{true, false} {
+		slack := int(c.I % 7)
+		buf := make([]byte, 4+len(val)+slack)
+		for i := range buf {
+			buf[i] = 0xA5
+		}
+		rd := &recDirect{}
+		var nw thrift.NocopyWriter
+		if has {
+			nw = rd
+		}
+		ret, adv := 0, 0
+		if c.Schema == "RawStr" {
+			ret = thrift.Binary.WriteStringNocopy(buf, nw, string(val))
+			adv = thrift.Binary.StringLengthNocopy(string(val))
+		} else {
+			ret = thrift.Binary.WriteBinaryNocopy(buf, nw, val)
+			adv = thrift.Binary.BinaryLengthNocopy(val)
+		}
+		var ds []string
+		for i, p := range rd.pieces {
+			ds = append(ds, fmt.Sprintf(`{"segs":%s,"remain":%d}`, projectBytes(p, seeds), rd.remain[i]))
+		}
+		k := ret
+		if k < 0 || k > len(buf) {
+			k = 0
+		}
+		w.Ev("nocopy", "schema", c.Schema, "val", vj, "linear", projectBytes(buf[:k], seeds), "ret", ret, "directs", Raw("["+strings.Join(ds, ",")+"]"),
+			"B", len(buf), "blen", adv, "copyret", 4+len(val), "haswriter", has, "ndirect", len(rd.pieces), "nlarge", nlarge)
+	}
+}
+
 func runNocopy(c *StructCase, w *TraceWriter, seeds []int) {
+	if c.Schema == "RawStr" || c.Schema == "RawBin" {
+		runNocopyRaw(c, w, seeds)
+		return
+	}
 	v := c.build()
 	val := c.valJSON(seeds)
 	nlarge := 0
